@@ -74,6 +74,16 @@ type dynCtx struct {
 	// attrsIter: probe outside the domain (known finding dyn-attrs-iterator): blocks that
 	// are read with JustAttributes get their values through the iterator, too
 	attrsIter bool
+	// frames: the `dynamic` blocks whose content is being built right now, outermost first
+	// (iterator name and the value objects of all blocks each generates): a nested content
+	// may take a value that is the same everywhere from any enclosing iterator, not only
+	// from its direct parent's
+	frames []dynFrame
+}
+
+type dynFrame struct {
+	iter string
+	objs []*Val
 }
 
 // dynamize rewrites blocks of the given body (and, recursively, of nested bodies) into
@@ -335,6 +345,24 @@ func (d *dynCtx) template(groups [][]*Item, bs *BlockS, env []string, parentIter
 			// content is inside the domain. See known finding dyn-attrs-iterator.
 			return nil, nil, nil
 		}
+		if same && !attrsMode && len(d.frames) > 0 && d.r.Intn(3) == 0 {
+			// the same value in every generated block: hand it down through an enclosing
+			// iterator (every element of that for_each carries it), preferably one that is
+			// not the direct parent
+			fi := d.r.Intn(len(d.frames))
+			if len(d.frames) >= 2 && d.r.Intn(2) == 0 {
+				fi = d.r.Intn(len(d.frames) - 1)
+			}
+			fr := d.frames[fi]
+			d.seq++
+			key := fmt.Sprintf("h%d_%s", d.seq, n)
+			for _, o := range fr.objs {
+				o.set(key, vals[0].clone())
+			}
+			content = append(content, &Item{K: "attr", Name: n, Val: vRef(fr.iter, "value", key)})
+			d.stats[fmt.Sprintf("dyn:attr-from-enclosing-iterator:%d-up", len(d.frames)-fi)]++
+			continue
+		}
 		if same && (attrsMode || d.r.Intn(2) == 0) {
 			content = append(content, &Item{K: "attr", Name: n, Val: vals[0].clone()})
 			continue
@@ -400,6 +428,12 @@ func (d *dynCtx) template(groups [][]*Item, bs *BlockS, env []string, parentIter
 	}
 	// nested blocks
 	if !attrsMode && bs.Body != nil {
+		fr := dynFrame{iter: iter}
+		for _, b := range all {
+			fr.objs = append(fr.objs, objs[b])
+		}
+		d.frames = append(d.frames, fr)
+		defer func(n int) { d.frames = d.frames[:n] }(len(d.frames) - 1)
 		for ti := range bs.Body.Blocks {
 			cs := &bs.Body.Blocks[ti]
 			kids := make([][]*Item, len(all))
